@@ -88,9 +88,13 @@ Definition dec_meta_fuel (fuel : nat) (m : mode) (size : N) : prog meta :=
       current <- get_pos ;;
       if hdlr_handler_type h =? meta_MDIR then
         il <- children_loop fuel m (Some size) true end_ (meta_mdir_dispatch m) None current ;;
+        e <- add64 m "meta start+size (final seek)" start size ;;
+        skip_bytes_to e ;;;
         Ret (MetaMdir il)
       else
         d <- children_loop fuel m (Some size) true end_ (meta_unknown_dispatch m) [] current ;;
+        e <- add64 m "meta start+size (final seek)" start size ;;
+        skip_bytes_to e ;;;
         Ret (MetaUnknown h d)
   end.
 
@@ -148,13 +152,12 @@ Example meta_smoke_hdlr_non_first :
   = Ok (MetaMdir (Some ilst_default)).
 Proof. vm_compute. reflexivity. Qed.
 
-(** [read_box] leaves the stream where its last loop stopped, not at [start + size]: after a
-    zero-size child header the rest of the meta box is read by the PARENT's loop as the parent's
-    own children (here the position is 53 of 98) *)
-Example meta_smoke_no_final_seek :
+(** [read_box] ends at [start + size] (fix: "leave the stream at the end of the meta box"): spare bytes after a
+    zero-size child header stay inside the meta box *)
+Example meta_smoke_final_seek :
   let hd := wout (enc_hdlr (mkHdlr 0 0 0x74657374 [])) in
   let payload := be 4 0 ++ hd ++ be 4 0 ++ be 4 0x66726565 ++ wout (enc_meta (MetaMdir None)) in
   let bytes := be 4 (8 + lenN payload) ++ be 4 0x6d657461 ++ payload in
   let r := run (h <- read_header ;; dec_meta_fuel 10 Dbg (snd h)) (stream_at bytes 0) in
-  fst r = Ok (MetaUnknown (mkHdlr 0 0 0x74657374 []) []) /\ s_pos (snd r) = 53 /\ lenN bytes = 98.
+  fst r = Ok (MetaUnknown (mkHdlr 0 0 0x74657374 []) []) /\ s_pos (snd r) = 98 /\ lenN bytes = 98.
 Proof. vm_compute. repeat split; reflexivity. Qed.
